@@ -52,6 +52,10 @@ def _s(r):
     return str(r)
 
 
+import os as _os
+_SLOWDUMP = _os.environ.get("VERIF_SLOWDUMP")
+
+
 class Engine:
     def __init__(self, mode="real", rlimit=30_000_000, timeout_ms=120_000, int_lo=-2, int_hi=8, lazy=False, seed=0, known=()):
         self.mode = mode
@@ -100,6 +104,8 @@ class Engine:
 
     def check(self, *extra):
         t = time.time()
+        if _SLOWDUMP:
+            open(_SLOWDUMP, "w").write(self.solver.sexpr() + "".join(f"(assert {e.sexpr()})\n" for e in extra) + "(check-sat)\n")
         r = self.solver.check(*extra)
         self.stats["solver_calls"] += 1
         self.stats["solver_s"] += time.time() - t
@@ -850,7 +856,17 @@ class SFloat:
         elif kind == "floor":
             eng.add(z3.And(nr <= self.t, self.t < nr + 1))
         eng.memo[key] = (n, st)
+        self._mono(kind, n, self.t)
         return n
+
+    def _mono(self, kind, n, t):
+        """monotonicity lemmas between the auxiliary integers of one path: t <= t' => n <= n'.  Without them z3's
+        branch-and-bound does not terminate on queries such as x0 == x1 /\\ ceil(x0) > m >= ceil(x1)."""
+        eng = self.eng
+        lst = eng.memo.setdefault(("mono", kind), [])
+        for (n2, t2) in lst:
+            eng.solver.add(z3.Implies(t <= t2, n <= n2), z3.Implies(t2 <= t, n2 <= n))
+        lst.append((n, t))
 
     def _fp_roundint(self, rm, what):
         """fp mode: ceil/floor.  With a symbolic divisor the result is concretised (bounded); otherwise it stays an
@@ -972,6 +988,7 @@ class SFloat:
             # nearest integer; at an exact tie either neighbour is allowed (sound over-approximation of
             # round-half-even that keeps `mod` out of the path condition; no oracle depends on the tie direction)
             eng.add(z3.And(rr - half <= st, st <= rr + half))
+            self._mono("round%d" % decimals, r, st)
             eng.memo[key] = (r, st)
         out = SFloat(eng, z3.ToReal(r) / scale, self.np)
         out.orig = self
